@@ -111,6 +111,13 @@ def check(run, project):
         c07.check(RuleView(run, "NI-2", "S7"), project)
     except AnalysisError as ex:
         run.info(f"S7: the threading of the mode flag could not be followed ({ex}); not judged here (C07 reports it)")
+    # S8 (= C15-F5): message boundaries are taken from the messages themselves - also by the front-ends that cut a capture
+    # into messages before the stream is decoded (size field of the header; nothing but runts below the header size dropped)
+    from . import c15
+    try:
+        c15.f5(RuleView(run, "F5", "S8"), project, L)
+    except AnalysisError as ex:
+        run.info(f"S8: the front-ends' message cutting could not be followed ({ex}); not judged here (C15 reports it)")
     # ... and there is such an end: when the input ends after a complete message the stream walker has already announced the
     # next message's root; without the pump's silent return at that point every stream would end in a depleted error
     from .. import pump as _pump
